@@ -277,6 +277,10 @@ class _AsyncCache[**Args, Result]:
                     # if still running let it complete if able
                     del self._cached[key]  # continue the same way as if empty
 
+                elif entry[0].cancelled():
+                    # it has been cancelled (i.e. along with its event loop), there is no result
+                    del self._cached[key]  # continue the same way as if empty
+
                 else:
                     self._cached.move_to_end(key)
                     return await shield(entry[0])
@@ -313,6 +317,10 @@ class _AsyncCache[**Args, Result]:
             case entry:
                 if (expire := entry[1]) is not None and expire < monotonic():
                     # if still running let it complete if able
+                    del self._cached[key]  # continue the same way as if empty
+
+                elif entry[0].cancelled():
+                    # it has been cancelled (i.e. along with its event loop), there is no result
                     del self._cached[key]  # continue the same way as if empty
 
                 else:
